@@ -373,6 +373,7 @@ class number_converters_base(_check_value_base):
             isinstance(python_object, type(freephil.Auto))
         ):
             return [tokenizer.word(value="Auto")]
+        self._check_value(value=python_object, path_producer=master.full_path)
         return [tokenizer.word(value=self._value_as_str(value=python_object))]
 
 
